@@ -329,8 +329,10 @@ namespace
         void op_resize_impl(const Step& st, std::true_type)
         {
             int t = st.actor % 2;
-            static const char* const vn[] = {"n", "n_value", "n_other_closure"};
-            unsigned v = static_cast<unsigned>(st.d % 3);
+            // n_own_element: the fill value is a proxy onto an element of the container itself (as std::vector allows)
+            static const char* const vn[] = {"n", "n_value", "n_other_closure", "n_own_element", "n_own_back"};
+            unsigned v = static_cast<unsigned>(st.d % 5);
+            if (v >= 3 && model[t].empty()) v = 1;
             Scope sc(*this, st, "resize", vn[v], t);
             size_t n = size_pick(st.a);
             T a = val(st.b), b = val(st.c);
@@ -347,6 +349,14 @@ namespace
 #if SQ_FAMILY == 0
         bool do_resize(C& c, Model& m, unsigned v, size_t n, T a, T, bool f)
         {
+            if (v >= 3)
+            {
+                size_t i = v == 3 ? static_cast<size_t>(static_cast<uint64_t>(static_cast<long long>(a) + 1000) % m.size()) : m.size() - 1;
+                Elem e = m[i];
+                m.resize(n, e);
+                SIM_PROBE("resize_with_own_element");
+                return xcall([&] { if (v == 3) c.resize(n, c[i]); else c.resize(n, c.back()); });
+            }
             if (v == 0) { m.resize(n, fresh_elem()); return xcall([&] { c.resize(n); }); }
             if (v == 1) { m.resize(n, Elem(a, true)); return xcall([&] { c.resize(n, a); }); }
             if (f) { xtl::xoptional<T, bool> o(a, true); m.resize(n, Elem(a, true)); return xcall([&] { c.resize(n, o); }); }
@@ -355,7 +365,15 @@ namespace
 #else
         bool do_resize(C& c, Model& m, unsigned v, size_t n, T a, T b, bool)
         {
-            if (v == 0) { c.resize(n); m.resize(n, fresh_elem()); }
+            if (v >= 3)
+            {
+                size_t i = v == 3 ? static_cast<size_t>(static_cast<uint64_t>(static_cast<long long>(a) + 1000) % m.size()) : m.size() - 1;
+                Elem e = m[i];
+                if (v == 3) c.resize(n, c[i]); else c.resize(n, c.back());
+                m.resize(n, e);
+                SIM_PROBE("resize_with_own_element");
+            }
+            else if (v == 0) { c.resize(n); m.resize(n, fresh_elem()); }
             else if (v == 1) { c.resize(n, typename C::value_type(a, b)); m.resize(n, Elem(a, b)); }
             else { T ra = a, rb = b; xtl::xcomplex<T&, T&> ref(ra, rb); c.resize(n, ref); m.resize(n, Elem(a, b)); }
             return true;
